@@ -177,6 +177,7 @@ def make_oracle(reference: dict[str, Any]) -> Oracle:
         if n != getattr(h, "c12_seen_resumes", 0):
             h.c12_seen_resumes = n
             h.c12_inflight, h.c12_invs_before = h.c12_prev
+            h.c12_started_order = getattr(h, "c12_prev_order", {})
             h.c12_cats = sorted(set(getattr(h, "c12_cats", [])) | {k[2] for k in h.c12_inflight})
         r = h.runners[-1]
         infl = {}
@@ -189,6 +190,8 @@ def make_oracle(reference: dict[str, Any]) -> Oracle:
             if getattr(t, "type", "") == "add_event" and t.attempts:
                 infl[(t.step_name, getattr(t.event, "uid", None), "scheduled_retry")] = (t.attempts, dict(t.recovery_counts))
         h.c12_prev = (infl, len(h.invocations))
+        # the order in which each step's running executions had been started
+        h.c12_prev_order = {name: [getattr(ip.event, "uid", None) for ip in ws.in_progress] for name, ws in r.state.workers.items() if len(ws.in_progress) >= 2}
 
     def final(h: Any, e: Any, state: dict[str, Any]) -> None:
         hd = state["hd"]
@@ -222,6 +225,16 @@ def make_oracle(reference: dict[str, Any]) -> Oracle:
                 h.violate("retry_count_not_preserved", {"state_at_snapshot": cat},
                           f"{step}#{uid} was {cat} at attempt {attempts} when the context was serialized, "
                           f"re-executed with retry_number={rn}")
+        # interrupted executions of one step come back in the order in which they had been started (what they do may depend on it)
+        for step, uids in getattr(h, "c12_started_order", {}).items():
+            seen: list[Any] = []
+            for i in after:
+                u = getattr(i.ev, "uid", None)
+                if i.step == step and u in uids and u not in seen:
+                    seen.append(u)
+            if len(seen) == len(uids) and seen != uids and len(set(uids)) == len(uids):
+                h.violate("interrupted_executions_restarted_in_another_order", {"step": step},
+                          f"step {step}: executions of {uids} (in that order) were running when the context was serialized; the resumed run started them as {seen}")
         if "executions" in reference and h.spec.params.get("family") != "wait":
             for step, n in reference["executions"].items():
                 if step in h.spec.params.get("rehydrated_steps", ()):
